@@ -87,7 +87,11 @@ func c08Schnorr(t *rapid.T, ev *evProp, gi *GroupInfo) {
 	msg := genMsg(t, 4096)
 	ctx := fmt.Sprintf("schnorr group=%s x=%s |msg|=%d msg=%.40x", gi.Name, x, len(msg), msg)
 	key := func(w string) string { return fmt.Sprintf("C08/schnorr/%s/%s", gi.Name, w) }
-	sig, err := schnorr.Sign(suite, x.S, msg)
+	gmsg, msgIntact := guard(msg)
+	sig, err := schnorr.Sign(suite, x.S, gmsg)
+	if why := msgIntact(); why != "" {
+		violationOrKnown(t, ev, key("input-overwritten"), "schnorr.Sign wrote into its caller's memory: %s\n%s", why, ctx)
+	}
 	if err != nil {
 		violationOrKnown(t, ev, key("sign"), "Sign failed: %v\n%s", err, ctx)
 		return
@@ -483,8 +487,25 @@ func c08Ring(t *rapid.T, ev *evProp) {
 	}
 	msg := genMsg(t, 300)
 	ctx := fmt.Sprintf("ring suite=%s n=%d mine=%d scope=%x(%v) |msg|=%d", name, n, mine, scope, scope != nil, len(msg))
-	sig := anon.Sign(suite, msg, ring, scope, mine, privs[mine])
-	tag, err := anon.Verify(suite, msg, ring, scope, sig)
+	// message and scope are handed over as slices with spare capacity behind them (parts of a larger
+	// packet): neither Sign nor Verify may write into the caller's memory
+	gmsg, msgIntact := guard(msg)
+	gscope, scopeIntact := []byte(nil), func() string { return "" }
+	if scope != nil {
+		gscope, scopeIntact = guard(scope)
+	}
+	sig := anon.Sign(suite, gmsg, ring, gscope, mine, privs[mine])
+	for _, why := range []string{msgIntact(), scopeIntact()} {
+		if why != "" {
+			violationOrKnown(t, ev, "C08/ring/"+name+"/input-overwritten", "anon.Sign wrote into its caller's memory: %s\n%s", why, ctx)
+		}
+	}
+	tag, err := anon.Verify(suite, gmsg, ring, gscope, sig)
+	for _, why := range []string{msgIntact(), scopeIntact()} {
+		if why != "" {
+			violationOrKnown(t, ev, "C08/ring/"+name+"/input-overwritten", "anon.Verify wrote into its caller's memory: %s\n%s", why, ctx)
+		}
+	}
 	if err != nil {
 		violationOrKnown(t, ev, "C08/ring/"+name+"/honest", "honest ring signature rejected: %v\n%s", err, ctx)
 		return
